@@ -80,6 +80,43 @@ def gen_C02(repo, gendir, gosym):
         emit("VerifGenFloat", cases_f, 12, "[]int{0, 5}[vrt.Choice(\"posIdx\", 2)]").split("\n", 5)[5])
     return {"int_methods": len(cases_i), "float_methods": len(cases_f)}
 
+
+def c06_formats(repo):
+    """(package dir, format variable name) of every interp.RegisterFormat(format.X, ...) in the current tree"""
+    out = []
+    for root, _, files in sorted(os.walk(os.path.join(repo, "format"))):
+        rel = os.path.relpath(root, repo)
+        for f in sorted(files):
+            if not f.endswith(".go") or f.endswith("_test.go") or f.startswith("zz_verif"):
+                continue
+            for m in re.finditer(r"interp\.RegisterFormat\(\s*format\.(\w+),", open(os.path.join(root, f)).read()):
+                out.append((rel, m.group(1)))
+    return out
+
+
+def _pkgname(repo, rel):
+    for f in sorted(os.listdir(os.path.join(repo, rel))):
+        if f.endswith(".go") and not f.endswith("_test.go"):
+            m = re.search(r"^package (\w+)", open(os.path.join(repo, rel, f)).read(), re.M)
+            if m:
+                return m.group(1)
+    return os.path.basename(rel)
+
+
+def c06_emit(gendir, items, repo="/repo"):
+    """items: (rel, pkgname or '', format var, N, func name); one generated file per package"""
+    by = {}
+    for rel, pkg, name, n, fn in items:
+        by.setdefault(rel, []).append((pkg or _pkgname(repo, rel), name, n, fn))
+    for rel, lst in by.items():
+        d = os.path.join(gendir, rel)
+        os.makedirs(d, exist_ok=True)
+        src = ["// generated from the interp.RegisterFormat calls of the current tree on every run; do not edit", "package %s" % lst[0][0], "",
+               "import (", '\t"github.com/wader/fq/format"', '\t"github.com/wader/fq/pkg/interp"', ")", ""]
+        for _, name, n, fn in lst:
+            src.append("func %s() { interp.ZZNoCrashGroup(format.%s, %d) }" % (fn, name, n))
+        open(os.path.join(d, "gen_nocrash.go"), "w").write("\n".join(src) + "\n")
+
 PROPS = {}
 
 PROPS["C01"] = {
@@ -398,16 +435,22 @@ for _p, _pref, _clause in (("C03", "pkg/decode.VerifTree", "tree invariants on p
 
 PROPS["C14"] = {
     "level": "model_checking",
-    "explanation": "hex and the four base64 variants, entered through the closures fq registers with the jq VM (looked up in interp.DefaultRegistry at run time, including the argument casting layer): to(b) equals a reference encoder written in the harness, from(to(b)) = b, and from(s) on arbitrary symbolic strings is an error or the reference decoding, never a wrong value",
+    "explanation": "hex, the four base64 variants and the URL component/path escapers (the real net/url code is executed), entered through the closures fq registers with the jq VM (looked up in interp.DefaultRegistry at run time, including the argument casting layer): to(b) equals a reference encoder written in the harness, from(to(b)) = b, and from(s) on arbitrary symbolic strings is an error or the reference decoding, never a wrong value",
     "wall_quick": 600, "wall_thorough": 1800,
     "harnesses": [
         {"entry": "format/text.VerifHex", "clause": "to_hex = reference, from_hex(to_hex(b)) = b", "bounds": {"bytes": "0..4"}},
         {"entry": "format/text.VerifFromHexAny", "clause": "from_hex on any string: error unless it is an even number of hex digits of either case, then the reference decoding", "bounds": {"chars": "0..4, any byte values"}},
         {"entry": "format/text.VerifBase64", "clause": "_to_base64 = reference for std/url/rawstd/rawurl; round trip", "bounds": {"bytes": "0..5"}},
         {"entry": "format/text.VerifFromBase64Any", "clause": "_from_base64 (std) on any 4 characters: error or the reference decoding", "bounds": {"chars": "4, any byte values"}},
+        {"entry": "format/text.VerifURLEncode", "group": "urlenc", "clause": "to_urlencode output is unreserved characters, '+' and upper-case %XX only; an RFC 3986 reference decoder (with '+' = space) maps it back to the input; from_urlencode(to_urlencode(s)) = s", "bounds": {"bytes": "0..2, any values"}},
+        {"entry": "format/text.VerifURLEncode3", "group": "urlenc", "tier": "thorough", "clause": "same, 3 bytes", "bounds": {"bytes": "0..3"}},
+        {"entry": "format/text.VerifURLPath", "group": "urlpath", "clause": "to_urlpath output is unreserved characters, the pchar literals $&+=:@ and upper-case %XX only; reference decoding gives the input; from_urlpath(to_urlpath(s)) = s", "bounds": {"bytes": "0..2, any values"}},
+        {"entry": "format/text.VerifURLPath3", "group": "urlpath", "tier": "thorough", "clause": "same, 3 bytes", "bounds": {"bytes": "0..3"}},
+        {"entry": "format/text.VerifFromURLEncodeAny", "clause": "from_urlencode on any string: error iff a '%' is not followed by two hex digits, else the reference percent-decoding with '+' = space", "bounds": {"chars": "0..4, any byte values"}},
+        {"entry": "format/text.VerifFromURLPathAny", "clause": "from_urlpath on any string: error iff malformed escape, else the reference percent-decoding ('+' is itself)", "bounds": {"chars": "0..4, any byte values"}},
     ],
     "assumptions": ["mapstruct.ToStruct (reflection) is the engine's implementation for the option struct {encoding: string}"],
-    "outside": ["URL functions, text encodings (x/text), radix.jq, hashes, JSON/YAML/TOML/XML/CSV round trips: third-party reflective parsers / jq text / whole-stream loops — not applicable to this technique (DESIGN §5 C14)"],
+    "outside": ["to_urlquery/from_urlquery/to_url/from_url (maps with symbolic keys: exploration does not finish), text encodings (x/text), radix.jq, hashes, JSON/YAML/TOML/XML/CSV round trips: third-party reflective parsers / jq text / whole-stream loops — not applicable to this technique (DESIGN §5 C14)"],
 }
 
 
